@@ -404,19 +404,31 @@ func (wf *Workflow) reconnectDeadEndConnections(procs map[string]WorkflowProcess
 // directly or indirectly, via its in-ports and param-in-ports
 func upstreamProcsForProc(proc WorkflowProcess) map[string]WorkflowProcess {
 	procs := map[string]WorkflowProcess{}
+	collectUpstreamProcs(proc, procs)
+	return procs
+}
+
+// collectUpstreamProcs adds all processes upstream of proc to procs. Processes
+// already in procs are not visited again, so that the traversal terminates
+// also when a port is fed by its own process (as with InParamPort.FromStr).
+func collectUpstreamProcs(proc WorkflowProcess, procs map[string]WorkflowProcess) {
+	visit := func(upProc WorkflowProcess) {
+		if _, seen := procs[upProc.Name()]; seen {
+			return
+		}
+		procs[upProc.Name()] = upProc
+		collectUpstreamProcs(upProc, procs)
+	}
 	for _, inp := range proc.InPorts() {
 		for _, rpt := range inp.RemotePorts {
-			procs[rpt.Process().Name()] = rpt.Process()
-			mergeWFMaps(procs, upstreamProcsForProc(rpt.Process()))
+			visit(rpt.Process())
 		}
 	}
 	for _, pip := range proc.InParamPorts() {
 		for _, rpp := range pip.RemotePorts {
-			procs[rpp.Process().Name()] = rpp.Process()
-			mergeWFMaps(procs, upstreamProcsForProc(rpp.Process()))
+			visit(rpp.Process())
 		}
 	}
-	return procs
 }
 
 func mergeWFMaps(a map[string]WorkflowProcess, b map[string]WorkflowProcess) map[string]WorkflowProcess {
